@@ -2,10 +2,12 @@
    Only the property theorems; each is closed by a lemma of Proofs.v and followed by
    Print Assumptions.  GENPOL is the policy scraped from /repo (Gen.v). *)
 From Coq Require Import ZArith Bool List.
-From C08 Require Import Model Gen Proofs.
+From C08 Require Import Model Gen Proofs ProofsEdits.
 Local Open Scope Z_scope.
 
-(* Full-strength statement (Proofs.cache_fresh): for every injective hash, every outcome of the C
+(* Full-strength statement over the property's step kinds (Proofs.cache_fresh; the hypothesis on
+   ccinfo_of says that nothing the C compiler reads changes without the generated C, the command or
+   ccinfo changing - see the documented limit at the end of this file): for every injective hash, every outcome of the C
    compiler, every clock resolution and EVERY history of invocations (edits, option/pragma
    changes, source switches, compiler switches, -o, --no-cache, interrupted builds) with
    arbitrary spacing, each invocation's outcome equals that of the same invocation with caching
@@ -45,17 +47,17 @@ Print Assumptions C08_cache_fresh_refuted_shared_output.
    an -o file is used by one cache slot only (only if -o files are reused), no pragma
    nocheading (only if such invocations may reuse binaries). *)
 Theorem C08_cache_fresh_partial :
-  forall H cc_ok tps, H_inj H -> 0 < tps -> forall h,
-    hyps_ok H cc_ok GENPOL tps (spaced_weak tps) (init tps) h = true ->
-    all_fresh cc_ok (exec H cc_ok GENPOL tps (init tps) h) = true.
+  forall H ccinfo_of cc_ok tps, H_inj H -> (forall a b, ccinfo_of a = ccinfo_of b -> a = b) -> 0 < tps -> forall h,
+    hyps_ok H ccinfo_of cc_ok GENPOL tps (spaced_weak tps) (init tps) h = true ->
+    all_fresh cc_ok (exec H ccinfo_of cc_ok GENPOL tps (init tps) h) = true.
 Proof. intros; apply fresh_under_hyps; auto; reflexivity. Qed.
 Print Assumptions C08_cache_fresh_partial.
 
 (* the wording of DESIGN.md: content-changing runs at least one second after the last build *)
 Theorem C08_cache_fresh_partial_1s :
-  forall H cc_ok tps, H_inj H -> 0 < tps -> forall h,
-    hyps_ok H cc_ok GENPOL tps (spaced_1s tps) (init tps) h = true ->
-    all_fresh cc_ok (exec H cc_ok GENPOL tps (init tps) h) = true.
+  forall H ccinfo_of cc_ok tps, H_inj H -> (forall a b, ccinfo_of a = ccinfo_of b -> a = b) -> 0 < tps -> forall h,
+    hyps_ok H ccinfo_of cc_ok GENPOL tps (spaced_1s tps) (init tps) h = true ->
+    all_fresh cc_ok (exec H ccinfo_of cc_ok GENPOL tps (init tps) h) = true.
 Proof. intros; apply fresh_under_hyps_1s; auto; reflexivity. Qed.
 Print Assumptions C08_cache_fresh_partial_1s.
 
@@ -76,3 +78,46 @@ Print Assumptions C08_hash_in_heading_needed.
 Theorem C08_size_test_needed : forall pol, p_size_chk pol = false -> ~ cache_fresh pol.
 Proof. exact refuted_without_size_test. Qed.
 Print Assumptions C08_size_test_needed.
+
+(* ---- the step kinds of the property, and the documented limit ---- *)
+
+(* An edit of the main source, of a required module, of -D, -P, --cflags or --release that changes the
+   behaviour of the program changes the text of the cached C file (ProofsEdits: the heading records the
+   command, the file is the generated C, the binary is a function of both and of what else the C
+   compiler reads).  This is what the cache model's "code / cmd" identifiers stand for. *)
+Theorem C08_source_and_option_edits_show_in_text :
+  forall gen exec hash ccinfo_of base rel dev e c,
+    keeps_world e = true ->
+    behaviour gen exec base rel dev (apply_edit e c) <> behaviour gen exec base rel dev c ->
+    text_of gen hash ccinfo_of base rel dev (apply_edit e c) <> text_of gen hash ccinfo_of base rel dev c.
+Proof. intros. eapply edit_shows_in_text_lemma; eauto. Qed.
+Print Assumptions C08_source_and_option_edits_show_in_text.
+
+(* --cflags and --release always change the recorded command (gcc flag sets scraped from cdefs.lua) *)
+Theorem C08_cflags_and_release_change_command :
+  forall base c,
+    (forall l, l <> c_cflags c ->
+               mkcmd base GCC_RELEASE_FLAGS GCC_DEVEL_FLAGS (apply_edit (ECflags l) c) <> mkcmd base GCC_RELEASE_FLAGS GCC_DEVEL_FLAGS c) /\
+    (forall b, b <> c_release c ->
+               mkcmd base GCC_RELEASE_FLAGS GCC_DEVEL_FLAGS (apply_edit (ERelease b) c) <> mkcmd base GCC_RELEASE_FLAGS GCC_DEVEL_FLAGS c).
+Proof.
+  intros base c. split.
+  - intros l N. apply cflags_edit_changes_command_lemma; auto.
+  - intros b N. apply release_toggle_changes_command_lemma; auto. exact gcc_release_differs_from_devel.
+Qed.
+Print Assumptions C08_cflags_and_release_change_command.
+
+(* THE DOCUMENTED LIMIT (outside the property's step kinds, a genuine stale artefact): an edit of what
+   the C compiler reads besides the C file that ccinfo does not reflect - a header included with
+   cinclude, an extra C file - leaves the text of the C file unchanged, and with such edits in the
+   history the cache is not fresh for any policy of the family (known finding, replayed). *)
+Theorem C08_header_edit_leaves_text :
+  forall gen hash ccinfo_of base rel dev w c,
+    ccinfo_of w = ccinfo_of (c_world c) ->
+    text_of gen hash ccinfo_of base rel dev (apply_edit (EWorld w) c) = text_of gen hash ccinfo_of base rel dev c.
+Proof. intros. apply header_edit_leaves_text_lemma; auto. Qed.
+Print Assumptions C08_header_edit_leaves_text.
+
+Theorem C08_cache_fresh_refuted_header_edit : ~ cache_fresh_any_world GENPOL.
+Proof. exact (refuted_header_edit GENPOL). Qed.
+Print Assumptions C08_cache_fresh_refuted_header_edit.
